@@ -203,3 +203,92 @@ Proof.
     + rewrite N1, R1, ?HS. lia.
   - apply (proj2 (md_apply_ok _ _ _ E)). exists b. split; [exact Fb|exact Hl].
 Qed.
+
+Definition okblk (s : cst) (x : N) : Prop :=
+  x <> root _ _ s /\ exists b, bfind (blocks _ _ s) x = Some b /\ N.le L_FULL (b_lvl _ b) /\ is_failed _ b = false.
+
+Lemma okblk_md : forall s s' x, md nobody s s' -> root _ _ s' = root _ _ s -> okblk s x -> okblk s' x.
+Proof.
+  intros s s' x M R (Hr & b & Fb & Hl & Hf). split; [rewrite R; exact Hr|].
+  destruct (static_find _ _ x b (proj1 M) Fb) as (b' & Fb'). destruct (md_nobody_failed _ _ _ _ _ M Fb Fb') as [A B].
+  exists b'. split; [exact Fb'|]. rewrite A, B. split; assumption.
+Qed.
+
+Lemma apply_path_alone : forall base path s from cur,
+    alone s cur -> ginv base s -> linked (cores s) cur path -> (forall x, In x path -> okblk s x) ->
+    exists s', apply_path pstate ccmd cexec cunexec s from path = Ok (s', true) /\ alone s' (last path cur) /\
+               ginv base s' /\ frame s s' /\ md nobody s s'.
+Proof.
+  intros base path. induction path as [|x r IH]; intros s from cur A G L Hok.
+  - exists s. cbn. split; [reflexivity|]. split; [exact A|]. split; [exact G|]. split; [apply frame_refl; exact (proj1 (proj1 (alone_unfold _ _) A))|apply md_refl].
+  - destruct L as [(e & He & Hp) Lr]. destruct (Hok x (or_introl eq_refl)) as (Hxr & b & Fb & Hl & Hf).
+    pose proof (find_cfind _ _ _ Fb) as Cb. rewrite He in Cb. inversion Cb; subst e. change (e_par (core b)) with (b_par ccmd b) in Hp.
+    destruct (applyBlock_alone base s cur x b A G Fb Hp Hxr Hl Hf) as (s1 & E1 & A1 & G1 & F1 & M1).
+    assert (Hok1 : forall y, In y r -> okblk s1 y) by (intros y Hy; eapply okblk_md; [exact M1|exact (fr_root _ _ F1)|apply Hok; right; exact Hy]).
+    destruct (IH s1 from x A1 G1 (linked_static _ _ _ _ (fr_static _ _ F1) Lr) Hok1) as (s' & E' & A' & G' & F' & M').
+    exists s'. split.
+    + cbn [apply_path]. change (applyBlock pstate ccmd cexec cunexec s x) with (c_applyBlock s x). rewrite E1. cbn [bind]. exact E'.
+    + split; [|split; [exact G'|split; [eapply frame_trans; eassumption|eapply md_trans; eassumption]]].
+      destruct r as [|y r']; [exact A'|]. change (last (x :: y :: r') cur) with (last (y :: r') cur).
+      rewrite (last_cons_default r' y cur x). exact A'.
+Qed.
+
+Lemma path_up_seq : forall s n b,
+    (forall i, (i < n)%nat -> exists e, cfind (cores s) (up (cores s) i b) = Some e) ->
+    path_up ccmd (blocks _ _ s) n b = Some (map (fun i => up (cores s) i b) (seq 0 n)).
+Proof.
+  intros s n. induction n as [|n IH]; intros b H; [reflexivity|]. cbn [path_up].
+  destruct (H O ltac:(lia)) as (e & He). cbn in He. destruct (core_find _ _ _ He) as (bb & Fb & Cb). rewrite Fb.
+  assert (Hp : parent (cores s) b = b_par ccmd bb) by (unfold parent; rewrite He, <- Cb; reflexivity).
+  rewrite <- Hp. rewrite IH.
+  - cbn [option_map seq map]. f_equal. f_equal. rewrite <- seq_shift, map_map. apply map_ext. intros i. reflexivity.
+  - intros i Hi. specialize (H (S i) ltac:(lia)). cbn in H. exact H.
+Qed.
+
+Lemma apply_alone_total : forall base s a b m eb,
+    alone s a -> ginv base s -> scoh s -> cfind (cores s) b = Some eb ->
+    a = up (cores s) m b -> Z.of_nat m <= dep s b ->
+    (forall i, (i < m)%nat -> okblk s (up (cores s) i b)) ->
+    exists s', apply pstate ccmd cexec cunexec s a b = Ok (s', true) /\ alone s' b /\ ginv base s' /\ frame s s' /\ md nobody s s'.
+Proof.
+  intros base s a b m eb A G C Hb Ha Hm Hok. pose proof (proj1 (alone_unfold _ _) A) as (W & Ta & Hn).
+  destruct m as [|m].
+  { cbn in Ha. subst a. exists s. unfold apply. rewrite N.eqb_refl. split; [reflexivity|]. split; [exact A|]. split; [exact G|].
+    split; [apply frame_refl; exact W|apply md_refl]. }
+  destruct (up_hgt_dep s b eb (S m) W C Hb Hm) as (Hha & (ea & Hea)). rewrite <- Ha in Hha, Hea.
+  assert (Hfound : forall i, (i < S m)%nat -> exists e, cfind (cores s) (up (cores s) i b) = Some e).
+  { intros i Hi. apply (up_hgt_dep s b eb i W C Hb). lia. }
+  unfold apply.
+  assert (Hab : N.eqb a b = false).
+  { apply N.eqb_neq. intro Heq. rewrite Heq in Hha. lia. }
+  rewrite Hab. destruct (core_find _ _ _ Hea) as (ba & Fa & Ca). destruct (core_find _ _ _ Hb) as (bb & Fb & Cbb). rewrite Fa, Fb.
+  destruct (Hok O ltac:(lia)) as (_ & b0 & Fb0 & _ & Hf0). cbn in Fb0. rewrite Fb in Fb0. inversion Fb0; subst b0. rewrite Hf0.
+  assert (Hhb : hgt (cores s) b = b_h ccmd bb) by (unfold hgt; rewrite Hb, <- Cbb; reflexivity).
+  assert (Hha' : hgt (cores s) a = b_h ccmd ba) by (unfold hgt; rewrite Hea, <- Ca; reflexivity).
+  assert (Hlt : negb (Z.ltb (b_h ccmd ba) (b_h ccmd bb)) = false) by (apply negb_false_iff; apply Z.ltb_lt; lia).
+  rewrite Hlt.
+  assert (Hn' : Z.to_nat (b_h ccmd bb - b_h ccmd ba) = S m) by lia. rewrite Hn'.
+  rewrite (path_up_seq s (S m) b Hfound).
+  set (upl := map (fun i => up (cores s) i b) (seq 0 (S m))).
+  assert (Eup : path_up ccmd (blocks pstate ccmd s) (S m) b = Some upl) by (apply path_up_seq; exact Hfound).
+  assert (Hne : upl <> []) by (unfold upl; cbn; discriminate).
+  assert (Hlast : last upl b = up (cores s) m b).
+  { unfold upl. rewrite seq_S, map_app. cbn. apply last_last. }
+  destruct (rev upl) as [|x r] eqn:Erev.
+  { exfalso. apply Hne. rewrite <- (rev_involutive upl), Erev. reflexivity. }
+  assert (Hx : x = up (cores s) m b).
+  { rewrite <- Hlast. rewrite <- (rev_involutive upl), Erev. cbn [rev]. symmetry. apply last_last. }
+  destruct (Hfound m ltac:(lia)) as (ex & Hex). rewrite <- Hx in Hex. destruct (core_find _ _ _ Hex) as (bx & Fx & Cx). rewrite Fx.
+  assert (Hpx : b_par ccmd bx = a).
+  { rewrite Ha. rewrite up_succ_r, <- Hx. unfold parent. rewrite Hex, <- Cx. reflexivity. }
+  apply N.eqb_eq in Hpx. rewrite Hpx. apply N.eqb_eq in Hpx.
+  destruct (path_up_linked s (S m) b upl a Eup (fun _ _ _ _ _ => I)) as [L Lb].
+  { exists bx. rewrite Hlast, <- Hx. split; assumption. }
+  { exact Hne. }
+  rewrite Erev in L, Lb.
+  assert (Hokp : forall y, In y (x :: r) -> okblk s y).
+  { intros y Hy. rewrite <- Erev in Hy. apply in_rev in Hy. unfold upl in Hy. apply in_map_iff in Hy. destruct Hy as (i & <- & Hi).
+    apply in_seq in Hi. apply Hok. lia. }
+  destruct (apply_path_alone base (x :: r) s a a A G L Hokp) as (s' & E' & A' & G' & F' & M').
+  exists s'. split; [exact E'|]. split; [rewrite Lb in A'; exact A'|]. split; [exact G'|split; assumption].
+Qed.
